@@ -44,6 +44,9 @@ def alt_pool(rng):
         'iidx_a': {'type': 'indirect_indexed_register', 'register': 'a', 'bytecode': bc(),
                    'index_operands': {'xb': {'type': 'register', 'register': 'b', 'bytecode': {'value': 1, 'size': 2}},
                                       'xn': {'type': 'numeric', 'argument': dict(a8), 'bytecode': {'value': 2, 'size': 2}}}},
+        'iidx_b': {'type': 'indirect_indexed_register', 'register': 'b', 'bytecode': bc(),
+                   'index_operands': {'xa': {'type': 'register', 'register': 'a', 'bytecode': {'value': 1, 'size': 2}},
+                                      'xs': {'type': 'register', 'register': 'sp', 'bytecode': {'value': 3, 'size': 2}}}},
         # (the numeric index alternative is written in front of the enumeration one: index alternatives follow the same
         # priority as the alternatives of an operand set, not their order in the definition)
         'idx_b': {'type': 'indexed_register', 'register': 'b', 'bytecode': bc(),
@@ -91,12 +94,14 @@ def operand_texts(rng):
     lab = rng.choice(sorted(LABELS))
     sp = rng.choice(['', ' '])
     rq = rng.choice(['a', 'a', r])
+    rb2 = rng.choice(['a', 'sp'])
     return [
         {'cls': 'reg', 'r': r, 'text': r if rng.random() < 0.7 else r.upper()},
         {'cls': 'ind', 'r': r, 'text': f'[{sp}{r}{sp}]'},
         {'cls': 'indoff', 'r': r, 'e': e, 'text': f'[{r}{sp}+{sp}{e}]'},
         {'cls': 'indoff', 'r': r, 'e': LABELS[lab], 'text': f'[{r}+{lab}]', 'lab': lab},
         {'cls': 'indidxreg', 'r': r, 't': r2, 'text': f'[{r}+{r2}]'},
+        {'cls': 'indidxreg', 'r': 'b', 't': rb2, 'text': f'[b{sp}+{sp}{rb2.upper()}]', 'upper_index': True},
         {'cls': 'idx', 'r': r, 'e': e, 'text': f'{r}{sp}+{sp}{e}'},
         {'cls': 'idx', 'r': r, 'e': LABELS[lab], 'text': f'{r}+{lab}', 'lab': lab},
         {'cls': 'idxreg', 'r': r, 't': r2, 'text': f'{r}+{r2}'},
@@ -230,7 +235,7 @@ class C13(core.Check):
         'reject:register-inside-expression', 'reject:no-variant-takes-count', 'mnemonic:upper', 'mnemonic:mixed',
         'chosen:variant>=2', 'chosen:specific', 'expect:ACCEPT', 'expect:REJECT',
         'later-candidate-after-nonaccepting-earlier', 'amb:disallowed-pair-mirrored-is-allowed', 'amb:two-specific-entries-accept',
-        'amb:key-vs-relative-address', 'amb:decorated-register-vs-numeric', 'chosen:decorated-bracketed-register', 'chosen:decorated-bracketed-register/decorator-in-front', 'amb:implied-operand-entry-vs-shorter-variant',
+        'amb:key-vs-relative-address', 'amb:decorated-register-vs-numeric', 'chosen:decorated-bracketed-register', 'index-register-in-capitals-inside-brackets', 'registers-declared-with-capitals', 'reject:register-that-reads-as-a-number', 'same-statement-before-and-behind-a-zone-declaration', 'literal-outside-the-first-variant\'s-range-with-a-later-variant-that-could-hold-it', 'chosen:decorated-bracketed-register/decorator-in-front', 'amb:implied-operand-entry-vs-shorter-variant',
         'amb:out-of-range-literal-with-later-accepting-candidate', 'primer:earlier-statement-took-a-later-variant', 'amb:listed-combination-named-like-the-disallowed-pair', 'amb:index-key-vs-index-expression', 'amb:register-that-reads-as-a-number',
         'amb:register-vs-numeric-enumeration', 'amb:register-vs-numeric-enumeration-with-argument-table-only',
         'amb:key-that-stands-for-0-vs-label', 'operator-inside-bracketed-or-indexed-form', 'reject:empty-operand-beside-a-comma', 'definition-shared-by-anchor-and-alias', 'chosen:variant-behind-one-without-operands']}
@@ -465,6 +470,9 @@ class C13(core.Check):
         return 'ACCEPT', chosen[1], info
 
     def cases(self, tier, seed):
+        yield from self.register_that_reads_as_a_number_cases()
+        yield from self.zone_declared_later_cases()
+        yield from self.out_of_range_literal_cases()
         n_pre = 800
         n = 700 if tier == 'quick' else 15000
         for i in range(n_pre + n):
@@ -578,6 +586,8 @@ class C13(core.Check):
                 for o, op in zip(operands, stmt['ops']):
                     if o['cls'] == 'word' and op.get('key') and o['e'] is not None:
                         tags.add('amb:key-vs-label')
+                    if o.get('upper_index') and kind == 'ACCEPT':
+                        tags.add('index-register-in-capitals-inside-brackets')
                     if o.get('opform'):
                         tags.add('operator-inside-bracketed-or-indexed-form')
                     if o.get('zero_key') and op.get('key'):
@@ -684,7 +694,22 @@ class C13(core.Check):
                     tags.add('primer:earlier-statement-took-a-later-variant')
                     break
             src = ''.join(f'{k} = {v}\n' for k, v in LABELS.items()) + primer + f'.org {addr}\n{text}\n.byte $EE\n'
-            fn, itext = isamod.render_isa(isa, 'yaml' if ('numeric_enumeration' in json.dumps(isa) or shared_def) else 'json')
+            isa_w = isa
+            if not shared_def and ((i < n_pre and i % 10 == 2) or (i >= n_pre and rng.random() < 0.15)):
+                # the configuration spells its registers with capitals (in the register list and in every operand that names one):
+                # a register name is a register name in any letter case
+                cap_ = {'a': 'A', 'b': 'B', 'sp': 'Sp', 'ah': 'AH'}
+
+                def cap_regs(x):
+                    if isinstance(x, dict):
+                        return {k_: (cap_.get(v_, v_) if k_ == 'register' and isinstance(v_, str) else cap_regs(v_)) for k_, v_ in x.items()}
+                    if isinstance(x, list):
+                        return [cap_regs(v_) for v_ in x]
+                    return x
+                isa_w = cap_regs(isa)
+                isa_w['general']['registers'] = [cap_.get(r_, r_) for r_ in isa['general']['registers']]
+                tags.add('registers-declared-with-capitals')
+            fn, itext = isamod.render_isa(isa_w, 'yaml' if ('numeric_enumeration' in json.dumps(isa) or shared_def) else 'json')
             tags.add('expect:' + kind)
             ntk = None
             if len(acc) >= 2:
@@ -695,11 +720,98 @@ class C13(core.Check):
                    'meta': {'kind': kind, 'bytes': exp, 'text': text, 'info': info, 'nt': ntk,
                             'classes': [o['cls'] for o in operands]}, 'tags': sorted(tags)}
 
+    def register_that_reads_as_a_number_cases(self):
+        """a register whose name could be read as a hexadecimal number (AH) in a position that takes numeric expressions only:
+        a register name, never a number - in any letter case, alone or inside an expression"""
+        a8 = {'size': 8, 'byte_align': True}
+        for typ in ('numeric', 'address', 'numeric_bytecode', 'relative_address', 'indirect_numeric'):
+            conf = {'type': typ, 'bytecode': {'value': 3, 'size': 5}}
+            if typ == 'numeric_bytecode':
+                conf = {'type': typ, 'bytecode': {'size': 5, 'min': 0, 'max': 31}}
+            elif typ == 'address':
+                conf['argument'] = {'size': 16, 'byte_align': True}
+            else:
+                conf['argument'] = dict(a8)
+            isa = isamod.base_isa(address_size=16, endian='big')
+            isa['general']['registers'] = ['a', 'ah', 'bh', 'c0h']
+            isa['operand_sets'] = {'only_num': {'operand_values': {'nv': conf}}}
+            isa['instructions'] = {'amb': {'bytecode': {'value': 0xA0, 'size': 8}, 'operands': {'count': 1, 'operand_sets': {'list': ['only_num']}}}}
+            fn, itext = isamod.render_isa(isa, 'json')
+            for reg in ('ah', 'AH', 'Ah', 'bh', 'C0H', 'ah+1', '1+AH', '(bh)'):
+                text = f'[{reg}]' if typ == 'indirect_numeric' else reg
+                src = f'.org 0\namb {text}\n.byte $EE\n'
+                yield {'runs': [{'files': {fn: itext, 'p.asm': src}, 'argv': ['compile', '-c', fn, 'p.asm', '-o', 'out.bin', '-s', '0'],
+                                 'probes': ['steps', 'select'], 'step_limit': 300000}],
+                       'meta': {'kind': 'REJECT', 'bytes': None, 'text': 'amb ' + text, 'info': {'why': 'register name in a numeric position'}, 'nt': None,
+                                'classes': ['reg']},
+                       'tags': sorted({'expect:REJECT', 'reject:register-in-numeric-position', 'reject:register-that-reads-as-a-number/' + typ,
+                                       'reject:register-that-reads-as-a-number'})}
+
+    def out_of_range_literal_cases(self):
+        """which variant takes a numeric text does not depend on the value: a literal outside the range of the first variant's
+        operand code is refused by that variant - it does not fall through to a later variant that could hold it"""
+        for lo, hi in ((0, 15), (1, 8), (-4, 3)):
+            isa = isamod.base_isa(address_size=16, endian='big')
+            isa['operand_sets'] = {'s0': {'operand_values': {'nb': {'type': 'numeric_bytecode', 'bytecode': {'size': 5, 'min': lo, 'max': hi}}}},
+                                   's1': {'operand_values': {'nn': {'type': 'numeric', 'bytecode': {'value': 9, 'size': 5}, 'argument': {'size': 8, 'byte_align': True}}}}}
+            isa['instructions'] = {'amb': {'bytecode': {'value': 0x5, 'size': 3}, 'operands': {'count': 1, 'operand_sets': {'list': ['s0']}},
+                                           'variants': [{'bytecode': {'value': 0x6, 'size': 3}, 'operands': {'count': 1, 'operand_sets': {'list': ['s1']}}}]}}
+            fn, itext = isamod.render_isa(isa, 'json')
+            for v in (hi + 1, hi + 2, 99, 127, hi, lo, lo - 1):
+                ok = lo <= v <= hi
+                text = str(v) if v >= 0 else f'0 - {-v}'
+                exp = None
+                if ok:
+                    b_, _ = encode.encode(isa, {'mn': 'amb', 'variant': 0, 'spec': None, 'ops': [{'id': 'nb', 'val': v}]}, 0, {'GLOBAL': (0, 65535)})
+                    exp = b_.hex()
+                src = f'.org 0\namb {text}\n.byte $EE\n'
+                yield {'runs': [{'files': {fn: itext, 'p.asm': src}, 'argv': ['compile', '-c', fn, 'p.asm', '-o', 'out.bin', '-s', '0'],
+                                 'probes': ['steps', 'select'], 'step_limit': 300000}],
+                       'meta': {'kind': 'ACCEPT' if ok else 'REJECT', 'bytes': exp, 'text': 'amb ' + text, 'info': {'range': [lo, hi]}, 'nt': None, 'classes': ['num']},
+                       'tags': sorted({'expect:' + ('ACCEPT' if ok else 'REJECT'), 'reject:constraint', 'literal-outside-the-first-variant\'s-range-with-a-later-variant-that-could-hold-it'}
+                                      if not ok else {'expect:ACCEPT', 'literal-on-the-edge-of-the-first-variant\'s-range'})}
+
+    def zone_declared_later_cases(self):
+        """an address alternative bound to a zone that the source declares only further down, in front of another numeric alternative:
+        whatever is made of the statement, it is the same before and behind the declaration (the encoding depends on the definition's
+        order, not on the place in the source) - or the program is refused"""
+        for second in ('numeric-alternative', 'later-variant'):
+            for text in ('$12', '5+5', 'lab_q'):
+                isa = isamod.base_isa(address_size=16, endian='big')
+                adr = {'type': 'address', 'bytecode': {'value': 5, 'size': 8}, 'argument': {'size': 8, 'byte_align': True, 'memory_zone': 'ZLATE'}}
+                num = {'type': 'numeric', 'bytecode': {'value': 9, 'size': 8}, 'argument': {'size': 16, 'byte_align': True}}
+                if second == 'numeric-alternative':
+                    isa['operand_sets'] = {'s0': {'operand_values': {'az': adr, 'nn': num}}}
+                    isa['instructions'] = {'amb': {'bytecode': {'value': 0xA0, 'size': 8}, 'operands': {'count': 1, 'operand_sets': {'list': ['s0']}}}}
+                else:
+                    isa['operand_sets'] = {'s0': {'operand_values': {'az': adr}}, 's1': {'operand_values': {'nn': num}}}
+                    isa['instructions'] = {'amb': {'bytecode': {'value': 0xA0, 'size': 8}, 'operands': {'count': 1, 'operand_sets': {'list': ['s0']}},
+                                                   'variants': [{'bytecode': {'value': 0xA1, 'size': 8}, 'operands': {'count': 1, 'operand_sets': {'list': ['s1']}}}]}}
+                fn, itext = isamod.render_isa(isa, 'json')
+                src = f'lab_q = $21\n.org 0\namb {text}\n.byte $EE\n#create_memzone ZLATE $0000 $00FF\n.org $10\namb {text}\n.byte $EE\n'
+                yield {'runs': [{'files': {fn: itext, 'p.asm': src}, 'argv': ['compile', '-c', fn, 'p.asm', '-o', 'out.bin', '-s', '0'],
+                                 'probes': ['steps', 'select'], 'step_limit': 300000}],
+                       'meta': {'kind': 'SAME-OR-REFUSED', 'bytes': None, 'text': 'amb ' + text, 'info': {'second': second}, 'nt': None, 'classes': ['num']},
+                       'tags': sorted({'same-statement-before-and-behind-a-zone-declaration'})}
+
     def judge(self, case, outcomes):
         o = outcomes[0]
         m = case['meta']
         tags = case['tags']
         nt = m['nt']
+        if m['kind'] == 'SAME-OR-REFUSED':
+            img = (o.get('files') or {}).get('out.bin')
+            if o.get('timed_out'):
+                return [core.violated('termination:' + str(o['timed_out']), {'statement': m['text']})]
+            if o.get('exit') != 0 or img is None:
+                return [core.held(buckets=tags)]
+            b = bytes.fromhex(img)
+            first = b[:b.index(0xEE)] if 0xEE in b[:16] else b[:16]
+            second = b[0x10:0x10 + len(first)]
+            if first != second:
+                return [core.violated('encoding-depends-on-the-place-in-the-source', {'statement': m['text'], 'before': first.hex(), 'behind': second.hex()},
+                                      buckets=tags)]
+            return [core.held(buckets=tags)]
         det = {'statement': m['text'], 'model': m['info'], 'expected_bytes': m['bytes'],
                'isa': 'see replay', 'classes': m['classes']}
         if o.get('timed_out'):
